@@ -34,7 +34,7 @@ def asan_runs(ctx, quick):
         os.makedirs(d, exist_ok=True)
         seed = str(ctx.seed * 1000 + 500 + i)
         if i % 2 == 0:
-            jobs.append((d, [asan_bin("conc"), "--seed", seed, "--out", d, "cases=%d" % (60 if quick else 1500), "words=20", "races=%d" % (4 if quick else 60), "inflight=%d" % (50 if quick else 2000),
+            jobs.append((d, [asan_bin("conc"), "--seed", seed, "--out", d, "cases=%d" % (60 if quick else 1500), "words=20", "races=%d" % (4 if quick else 60), "inflight=%d" % (50 if quick else 2000), "directio=%d" % (4 if quick else 60),
                              "scans=%d" % (10 if quick else 200), "scanrace=%d" % (6 if quick else 80), "contend=%d" % (2 if quick else 30), "readflush=%d" % (3 if quick else 80)]))
         else:
             jobs.append((d, [asan_bin("proto"), "--seed", seed, "--out", d, "crash", "fault", "partition", "writebehind", "workloads=%d" % (2 if quick else 12), "budget=%d" % (6 if quick else 30),
@@ -68,7 +68,7 @@ def run(ctx):
         violation(ctx, "the unsafe-inventory translator failed: " + ((r.stdout or "") + (r.stderr or ""))[-400:],
                   "# translator tools/gen_unsafe.py failed; theorem Feox.C20.unsafe_sites_audited cannot be re-checked\n" + (r.stdout or "") + (r.stderr or ""), no_input=True, tag="unsafe")
     quick = ctx.tier == "quick"
-    extra = ('cases=0', 'inflight=%d' % (400 if quick else 20000), 'scanrace=%d' % (4 if quick else 100), 'readflush=%d' % (3 if quick else 100))
+    extra = ('cases=0', 'inflight=%d' % (400 if quick else 20000), 'scanrace=%d' % (4 if quick else 100), 'readflush=%d' % (3 if quick else 100), 'directio=%d' % (6 if quick else 200))
     def hook(ctx2, cov):
         pass
     # the in-flight differential goes through the shared runner; asan on top
